@@ -618,6 +618,27 @@ Inductive SLF c (fr : sframe) : sconn -> Prop :=
 | SLF_after c1 s c2 cX sX : sf_sid fr <> 0 -> Origin c fr c1 s -> Closes c1 c2 -> HFok c2 s fr cX sX ->
     SLF c fr (fst (after_frame cfg cX sX fr (sc_closing c))).
 
+(* what HFok says about the connection and the stream afterFrame gets *)
+Lemma HFok_eff c2 s fr cX sX : HFok c2 s fr cX sX ->
+  exists c3 s3, Recv c2 c3 /\ Quiet c3 cX /\ sc_highestID cX = sc_highestID c3 /\ same_send s s3 /\
+    (st_window s3 = st_window s \/ (sf_kind fr = KWinUpd /\ st_window s3 = (st_window s + Z.of_N (sf_inc fr))%Z)) /\
+    same_win s3 sX /\ st_responded sX = st_responded s3 /\ st_handlerRunning sX = st_handlerRunning s3.
+Proof.
+  unfold HFok. intro HF.
+  pose proof (handle_frame_Recv c2 s fr) as R.
+  pose proof (handle_frame_eff c2 s fr) as (SS & WW & _).
+  destruct (handle_frame dec_field cfg c2 s fr) as [[c3 s3] e]. cbn [fst snd] in R, SS, WW.
+  exists c3, s3. split; [exact R|].
+  destruct e as [[code|code|]|].
+  - destruct HF as (_ & -> & ->). split; [apply Quiet_write_goaway|]. split; [apply sc_highestID_write_goaway|].
+    split; [exact SS|]. split; [exact WW|]. repeat split.
+  - destruct HF as (-> & ->). split; [apply Quiet_write_reset|]. split; [apply sc_highestID_write_reset|].
+    split; [exact SS|]. split; [exact WW|]. repeat split.
+  - contradiction.
+  - destruct HF as (-> & ->). split; [apply Quiet_refl|]. split; [reflexivity|].
+    split; [exact SS|]. split; [exact WW|]. repeat split.
+Qed.
+
 Ltac qs :=
   lazymatch goal with
   | |- Quiet _ (fst (cont ?x)) => change (fst (cont x)) with x; qs
